@@ -7,7 +7,7 @@ set -u
 T=${TRIAL_DIR:-/var/tmp/trial}
 if [ "${1:-}" = "--clean" ]; then git -C /repo worktree remove --force $T/repo 2>/dev/null; rm -rf $T; git -C /repo worktree prune; exit 0; fi
 D="$(realpath "$1")"; ID="$(basename "$D")"; shift
-BUDGET=60; TIER=quick
+BUDGET=""; TIER=quick
 while [ "${1:0:2}" = "--" ]; do case "$1" in --budget) BUDGET="$2"; shift 2;; --tier) TIER="$2"; shift 2;; *) echo "bad option $1"; exit 2;; esac; done
 mkdir -p $T
 [ -d $T/repo ] || git -C /repo worktree add --detach $T/repo HEAD > /dev/null 2>&1
@@ -19,7 +19,7 @@ cd $T/verif
 export VERIF_REPO=$T/repo VERIF_EVIDENCE_DIR=$T/evidence
 RES=""
 for c in "$@"; do
-  out=$(./check "$c" --tier $TIER --budget "$BUDGET" 2>&1); code=$?
+  if [ -n "$BUDGET" ]; then out=$(./check "$c" --tier $TIER --budget "$BUDGET" 2>&1); code=$?; else out=$(./check "$c" --tier $TIER 2>&1); code=$?; fi
   echo "== $ID $c exit=$code"
   echo "$out" | grep -E "VIOLATION|class=|HARNESS|tier=" | cut -c1-260
   cls=$(echo "$out" | grep -E "^  class=" | head -1 | sed 's/^  class=\([^ ]*\).*/\1/')
@@ -35,7 +35,7 @@ cr=m.setdefault('checks_run',{})
 for item in res.split(';'):
     if not item: continue
     c,code,cls,runs,tier,budget=item.split(':')
-    cr[c]={'cmd':'./check %s --tier %s --budget %s (change applied to a scratch worktree, tools/trial.sh)'%(c,tier,budget),'exit':int(code),
+    cr[c]={'cmd':('./check %s --tier %s'%(c,tier))+((' --budget %s'%budget) if budget else '')+' (change applied to a scratch worktree, tools/trial.sh)','exit':int(code),
            'detected':code=='1','first_violation_class':cls or None,'runs':runs}
 json.dump(m,open(p,'w'),indent=1)
 PY
